@@ -448,7 +448,6 @@ fn run_both(ctx: &Ctx, which: u8) -> Part {
         "transports": ["RecSerial", "RecPar8", "RecPar16", "Spi(16)", "Par8", "Par16"], "options": "2 colour orders x 8 orientations x 2 inversions x 4 refresh orders x 2 windows x {rst, no rst}"});
     let mut part = Part::new(ctx, acc, bounds, true, t0.elapsed().as_secs_f64());
     part.require("initialised", 1000);
-    part.require("refused_unsupported", 1);
     part.require("init_single_faults", 1000);
     part.require("init_retries", 1000);
     part
